@@ -250,3 +250,45 @@ Proof.
   destruct tag as [|t tg]; [unfold len; lia|].
   cbn [length]. rewrite !app_length. rewrite size_append_varuint by (unfold len, two64; lia). unfold len. cbn [length]. lia.
 Qed.
+
+(** ** floats (float.go): 4 / 8 little-endian bytes of the IEEE bit pattern *)
+Lemma go_le_put_model n v : go_le_put n v = le_bytes n v.
+Proof. revert v. induction n as [|n IH]; intros v; [reflexivity|]. cbn [go_le_put]. rewrite IH. reflexivity. Qed.
+Lemma go_le_val_model l : go_le_val l = le_value l.
+Proof. induction l as [|b r IH]; [reflexivity|]. cbn [go_le_val le_value]. rewrite IH. reflexivity. Qed.
+
+Theorem gen_Float_Append : forall b data tag fuel,
+  Float64Codec_Append fuel data b tag = Ok (data ++ enc CF64 (VF64 b) tag)
+  /\ Float32Codec_Append fuel data b tag = Ok (data ++ enc CF32 (VF32 b) tag).
+Proof.
+  intros. unfold Float64Codec_Append, Float64Codec_append, Float32Codec_Append, Float32Codec_append. cbn [bind enc].
+  rewrite !go_le_put_model, <- !app_assoc. split; reflexivity.
+Qed.
+Theorem gen_Float_Size : forall (b : N) tag, (Z.of_nat (length tag) < 4611686018427387904)%Z ->
+  Float64Codec_Size tt tag = Z.of_N (size CF64 (VF64 b) tag) /\ Float32Codec_Size tt tag = Z.of_N (size CF32 (VF32 b) tag).
+Proof.
+  intros b tag Hl. unfold Float64Codec_Size, Float32Codec_Size, sadd, go_len. cbn [size]. rewrite !swrap64_small by lia. unfold len. split; lia.
+Qed.
+Theorem gen_Float_Omit : forall b, Float64Codec_Omit b = omit CF64 (VF64 b) /\ Float32Codec_Omit b = omit CF32 (VF32 b).
+Proof. intros b. split; reflexivity. Qed.
+Theorem gen_Float_Read : forall data prior wt fuel,
+  Float64Codec_Read fuel data prior wt = match dec CF64 data (Z.to_N wt) (VF64 prior) with Ok (VF64 b, n) => Ok (b, Z.of_N n) | _ => Err end
+  /\ Float32Codec_Read fuel data prior wt = match dec CF32 data (Z.to_N wt) (VF32 prior) with Ok (VF32 b, n) => Ok (b, Z.of_N n) | _ => Err end.
+Proof.
+  intros data prior wt fuel. unfold Float64Codec_Read, Float32Codec_Read, go_le_get, go_len. cbn [dec]. unfold len.
+  split.
+  - destruct (N.of_nat (length data) <? 8) eqn:E.
+    + apply N.ltb_lt in E. replace (Z.ltb (Z.of_nat (length data)) 8) with true by (symmetry; apply Z.ltb_lt; lia).
+      destruct data as [|x r]; [reflexivity|]. cbn [length].
+      replace (Z.eqb (Z.of_nat (S (length r))) 0) with false by (symmetry; apply Z.eqb_neq; lia). reflexivity.
+    + apply N.ltb_ge in E. replace (Z.ltb (Z.of_nat (length data)) 8) with false by (symmetry; apply Z.ltb_ge; lia).
+      replace (Z.of_nat (length data) <? Z.of_nat 8)%Z with false by (symmetry; apply Z.ltb_ge; lia). cbn [bind].
+      rewrite go_le_val_model. reflexivity.
+  - destruct (N.of_nat (length data) <? 4) eqn:E.
+    + apply N.ltb_lt in E. replace (Z.ltb (Z.of_nat (length data)) 4) with true by (symmetry; apply Z.ltb_lt; lia).
+      destruct data as [|x r]; [reflexivity|]. cbn [length].
+      replace (Z.eqb (Z.of_nat (S (length r))) 0) with false by (symmetry; apply Z.eqb_neq; lia). reflexivity.
+    + apply N.ltb_ge in E. replace (Z.ltb (Z.of_nat (length data)) 4) with false by (symmetry; apply Z.ltb_ge; lia).
+      replace (Z.of_nat (length data) <? Z.of_nat 4)%Z with false by (symmetry; apply Z.ltb_ge; lia). cbn [bind].
+      rewrite go_le_val_model. reflexivity.
+Qed.
